@@ -100,6 +100,26 @@ Example ex_find_slot0 : index_find true true {| ix_version := 2; ix_section_coun
   = Ok None.
 Proof. reflexivity. Qed.
 
+(* KNOWN FINDING (known_findings.txt, proposed_fixes/index_find_zero_id.diff): the hypothesis id <> 0 of
+   index_find_correct cannot be dropped. Id 0 is the unused-slot marker, so it is never an entry, yet find
+   reports it as found (with the invalid row 0) as soon as its probe sequence meets an unused slot. *)
+Theorem index_find_zero_refuted :
+  exists (k : N) (t : table) (ix : unit_index),
+    built (2 ^ k) t /\ ix_slot_count ix = 2 ^ k /\
+    ix_hash_ids ix = enc_words 8 true (map fst t) /\ ix_hash_rows ix = enc_words 4 true (map snd t) /\
+    (forall row, ~ In (0, row) (contents t)) /\ index_find true true ix 0 = Ok (Some 0).
+Proof.
+  exists 2, ex_table, (ex_index true). split; [exact ex_table_built|]. repeat split.
+  intros row H. apply contents_spec in H. destruct H as [_ H]. apply H. reflexivity.
+Qed.
+
+(* every load factor is reachable: while a slot of a 2^k-slot table is unused, inserting any id succeeds,
+   because the step is odd and so the probe sequence visits every slot *)
+Theorem insert_reaches_every_load : forall (k : N) (t : table) (id row : N),
+  length t = N.to_nat (2 ^ k) -> (exists s, s < 2 ^ k /\ slot_id t s = Some 0) ->
+  exists t', insert (2 ^ k) t id row = Some t' /\ inserted (2 ^ k) t id row t'.
+Proof. exact insert_succeeds. Qed.
+
 (* (3) contribution rows: for an index with c <= 8 declared columns and unit_count rows of encoded offsets and
    sizes, `sections row` yields, per declared column kind j, offsets[(row-1)*c + j] and sizes[(row-1)*c + j];
    row 0 and rows beyond unit_count are InvalidIndexRow. *)
@@ -243,6 +263,117 @@ Proof. vm_compute. reflexivity. Qed.
 Example ex_names_bucket2 : ni_find_by_bucket true true (ex_names true) 2 = Ok (Some ([(0, 2); (1, 5); (2, 8)], SDone)).
 Proof. vm_compute. reflexivity. Qed.
 
+(* names_layout: NameIndex::new slices CU list / local TU list / foreign TU list / buckets / hashes /
+   string offsets / entry offsets / abbreviations / entry pool at the §6.1.1.2 sizes *)
+Theorem names_layout : forall (dbg : bool) (h : name_header)
+    (cu ltu ftu bk hsh nm eo ab pool : list byte) (abbrevs : list nabbrev),
+  nh_wf h ->
+  nh_content h = cu ++ ltu ++ ftu ++ bk ++ hsh ++ nm ++ eo ++ ab ++ pool ->
+  blen cu = nh_cu_count h * word_size (nh_fmt64 h) ->
+  blen ltu = nh_ltu_count h * word_size (nh_fmt64 h) ->
+  blen ftu = nh_ftu_count h * 8 ->
+  blen bk = nh_bucket_count h * 4 ->
+  blen hsh = (if nh_bucket_count h =? 0 then 0 else nh_name_count h * 4) ->
+  blen nm = nh_name_count h * word_size (nh_fmt64 h) ->
+  blen eo = nh_name_count h * word_size (nh_fmt64 h) ->
+  blen ab = nh_abbrev_size h ->
+  name_abbrevs dbg ab = Ok abbrevs ->
+  name_index_new dbg h =
+    Ok {| ni_fmt64 := nh_fmt64 h; ni_cu_count := nh_cu_count h; ni_ltu_count := nh_ltu_count h;
+          ni_ftu_count := nh_ftu_count h; ni_bucket_count := nh_bucket_count h;
+          ni_name_count := nh_name_count h;
+          ni_cu_list := cu; ni_ltu_list := ltu; ni_ftu_list := ftu; ni_buckets := bk; ni_hashes := hsh;
+          ni_names := nm; ni_entry_offsets := eo; ni_pool := pool; ni_abbrevs := abbrevs |}.
+Proof. exact NamesRdProofs.names_layout. Qed.
+
+(* the header of an encoded name index (augmentation string padded to 4 bytes) *)
+Theorem names_header : forall (dbg be : bool) (off : N) (d : names_desc) (rest : list byte),
+  names_desc_wf d ->
+  blen (enc_names_body be d) < (if n_fmt64 d then 2 ^ 64 else 4294967280) ->
+  name_header_parse dbg be off (enc_names be d ++ rest) =
+    Ok ({| nh_offset := off; nh_length := blen (enc_names_body be d); nh_fmt64 := n_fmt64 d; nh_version := 5;
+           nh_cu_count := N.of_nat (length (n_cus d)); nh_ltu_count := N.of_nat (length (n_ltus d));
+           nh_ftu_count := N.of_nat (length (n_ftus d)); nh_bucket_count := N.of_nat (length (n_buckets d));
+           nh_name_count := n_name_count d; nh_abbrev_size := N.of_nat (length (n_abbrev d));
+           nh_aug := (match n_aug d with [] => None | _ => Some (n_aug d) end);
+           nh_content := names_content be d |}, rest).
+Proof. exact names_header_encoded. Qed.
+
+(* end to end: the bytes of a name index whose bucket array is built from its grouped hashes parse to an
+   index on which find_by_hash is the exhaustive scan of the hash array and find_by_bucket the bucket's names *)
+Theorem names_lookup_encoded : forall (dbg be : bool) (off : N) (d : names_desc) (rest : list byte)
+    (abbrevs : list nabbrev),
+  names_desc_wf d ->
+  blen (enc_names_body be d) < (if n_fmt64 d then 2 ^ 64 else 4294967280) ->
+  let bc := N.of_nat (length (n_buckets d)) in
+  0 < bc -> n_buckets d = build_buckets bc (n_hashes d) -> grouped bc (n_hashes d) ->
+  n_name_count d = N.of_nat (length (n_hashes d)) ->
+  length (n_stroffs d) = length (n_hashes d) -> length (n_entryoffs d) = length (n_hashes d) ->
+  Forall (fun v => v < 2 ^ 32) (n_hashes d) ->
+  name_abbrevs dbg (n_abbrev d) = Ok abbrevs ->
+  exists h ix,
+    name_header_parse dbg be off (enc_names be d ++ rest) = Ok (h, rest) /\
+    name_index_new dbg h = Ok ix /\
+    (forall hash, ni_find_by_hash dbg be ix hash = Ok (positions hash 0 (n_hashes d), SDone)) /\
+    (forall b, b < bc ->
+       ni_find_by_bucket dbg be ix b =
+         Ok (match bucket_members bc b 0 (n_hashes d) with [] => None | l => Some (l, SDone) end)).
+Proof. exact NamesRdProofs.names_lookup_encoded. Qed.
+
+(* names_entry: abbreviation table and entry pool. The table parsed from the encoding of a list of
+   abbreviations (ended by its end or by a zero code) is that list; an encoded entry parses to its code, the
+   tag and attribute list of its abbreviation (forms data1/2/4/8, udata, ref1/2/4/8, ref_udata, flag,
+   flag_present) with its pool offset; a series ends at the zero code *)
+Theorem names_abbrevs : forall (dbg : bool) (l : list nabbrev) (tail : list byte),
+  (tail = [] \/ exists junk, tail = x00 :: junk) -> Forall abbrev_ok l ->
+  name_abbrevs dbg (enc_abbrevs l ++ tail) = Ok l.
+Proof. exact name_abbrevs_encoded. Qed.
+
+Theorem names_entry : forall (dbg be : bool) (abbrevs : list nabbrev) (a : nabbrev) (off code : N)
+    (attrs : list nattr) (rest : list byte),
+  code <> 0 -> code < 2 ^ 64 -> nabbrev_get code abbrevs = Some a ->
+  na_attrs a = map spec_of attrs -> Forall (fun x => nval_ok (at_form x) (at_value x)) attrs ->
+  nentry_parse dbg be abbrevs off (enc_nentry be code attrs ++ rest) =
+    Ok (Some {| ne_offset := off; ne_code := code; ne_tag := na_tag a; ne_attrs := attrs |}, rest).
+Proof. exact nentry_parse_encoded. Qed.
+
+Theorem names_entry_series : forall (dbg be : bool) (abbrevs : list nabbrev) (end_offset : N) (junk : list byte)
+    (es : list (N * list nattr)) (fuel : nat),
+  Forall (entry_ok abbrevs) es -> (length es < fuel)%nat ->
+  blen (series_bytes be es ++ x00 :: junk) <= end_offset ->
+  nentries_loop dbg be fuel abbrevs end_offset (series_bytes be es ++ x00 :: junk)
+  = (series_entries be abbrevs end_offset es (x00 :: junk), SDone).
+Proof. intros. apply nentries_encoded; assumption. Qed.
+
+Definition ex_abbrevs : list nabbrev :=
+  [ {| na_code := 1; na_tag := 46; na_attrs := [(3, 19); (4, 25)] |};
+    {| na_code := 2; na_tag := 19; na_attrs := [(1, 11); (2, 15); (3, 19); (4, 19); (5, 7)] |} ].
+Example ex_abbrevs_ok : Forall abbrev_ok ex_abbrevs.
+Proof. repeat constructor; cbn; try discriminate; reflexivity. Qed.
+Example ex_abbrevs_parse : name_abbrevs true (enc_abbrevs ex_abbrevs ++ [x00]) = Ok ex_abbrevs.
+Proof. vm_compute. reflexivity. Qed.
+Definition ex_series : list (N * list nattr) :=
+  [ (1, [ {| at_name := 3; at_form := 19; at_value := NVOffset 77 |};
+          {| at_name := 4; at_form := 25; at_value := NVFlag true |} ]);
+    (2, [ {| at_name := 1; at_form := 11; at_value := NVUnsigned 0 |};
+          {| at_name := 2; at_form := 15; at_value := NVUnsigned 300 |};
+          {| at_name := 3; at_form := 19; at_value := NVOffset 99 |};
+          {| at_name := 4; at_form := 19; at_value := NVOffset 0 |};
+          {| at_name := 5; at_form := 7; at_value := NVUnsigned 18446744073709551615 |} ]) ].
+Ltac nv := first [ reflexivity | split; reflexivity | left; nv | right; nv ].
+Example ex_series_ok : Forall (entry_ok ex_abbrevs) ex_series.
+Proof.
+  constructor; [|constructor; [|constructor]]; unfold entry_ok; cbn [fst snd].
+  - split; [discriminate|]. split; [reflexivity|]. split; [eexists; split; reflexivity|].
+    repeat (constructor; [cbn; nv|]). constructor.
+  - split; [discriminate|]. split; [reflexivity|]. split; [eexists; split; reflexivity|].
+    repeat (constructor; [cbn; nv|]). constructor.
+Qed.
+Example ex_series_parse :
+  map ne_offset (fst (nentries_loop true false 5 ex_abbrevs 27 (series_bytes false ex_series ++ [x00; x09])))
+  = [0; 5].
+Proof. vm_compute. reflexivity. Qed.
+
 (* every reader of the name index, for ALL byte strings and both build modes: the header iterator ends
    without panic; NameIndex::new never panics and slices the sections at the §6.1.1.2 sizes; entry series,
    single entries and the attribute accessors never panic *)
@@ -374,6 +505,7 @@ Proof. vm_compute. reflexivity. Qed.
 Check index_find_terminates. Check index_parse_no_panic. Check index_find_correct. Check index_find_absent.
 Check index_sections_rows. Check index_column_kinds. Check index_parse_encoded. Check index_lookup_encoded.
 Check names_by_bucket. Check names_by_hash. Check positions_is_scan. Check names_bucket_terminates.
-Check names_no_hash_table. Check names_type_unit_count. Check djb_hash.
+Check names_no_hash_table. Check names_layout. Check names_header. Check names_lookup_encoded.
+Check names_abbrevs. Check names_entry. Check names_entry_series. Check index_find_zero_refuted. Check insert_reaches_every_load. Check names_type_unit_count. Check djb_hash.
 Check aranges_padding. Check aranges_header. Check aranges_entries. Check aranges_no_panic.
 Check pubstuff. Check pubstuff_no_panic.
